@@ -13,3 +13,27 @@ for a in sys.argv[1:]:
         print('   W', e.root, '|', e.kind, '|', e.where, e.loc, '|', e.text[:70], '| via', ' > '.join(v.split('@')[0].split(':')[1] for v in e.via[:5]))
     for k, v in S.growth.items():
         print('   G', k, '+=', sorted(v))
+
+def trace(fq, var):
+    m, q = fq.split(':')
+    f = prog.func(m, q)
+    from .effects import _Ctx, Summary, join_env
+    from .cfg import cfg_of
+    cfg = cfg_of(f)
+    S = Summary(); ctx = _Ctx(eng, f, S)
+    state = {cfg.entry: eng.initial_env(f)}; work=[cfg.entry]; visits={}
+    while work:
+        n = work.pop(); visits[n]=visits.get(n,0)+1
+        if visits[n]>40: continue
+        out = ctx.transfer(cfg, n, dict(state.get(n, {})), record=False)
+        for b,l in cfg.succ[n]:
+            old = state.get(b); new = out if old is None else join_env(old,out)
+            if old is None or new != old:
+                state[b]=new; work.append(b)
+    for n in sorted(state, key=lambda n: cfg.nodes[n].lineno):
+        if var in state[n]:
+            v = state[n][var]
+            print(cfg.describe(n)[:70].ljust(72), 'id', sorted(v.id), 'content', sorted(v.content), 'fields', [(k, sorted(x.id), sorted(x.content)) for k, x in (v.fields or ())])
+if os.environ.get('TRACE'):
+    fq, var = os.environ['TRACE'].split('#')
+    trace(fq, var)
